@@ -42,6 +42,9 @@ type Guard struct {
 	At   token.Pos
 	// TypeSwitch: Cond is the switched expression, Types the case types
 	Types []ast.Expr
+	// Enclosing: the target is nested inside the construct carrying this condition (as opposed to the negation of
+	// a preceding early exit)
+	Enclosing bool
 }
 
 // Terminates reports whether a statement list always leaves the enclosing block (return, continue, break, goto, panic).
@@ -80,6 +83,16 @@ func Terminates(pk *packages.Package, list []ast.Stmt) bool {
 // negations of preceding early-exit guards.  Sound for structured code without goto into blocks; guards whose
 // variables are reassigned between the guard and the target are dropped.
 func GuardsAt(f *Fn, target ast.Node) []Guard {
+	return guardsAt(f, target, true)
+}
+
+// CtlGuardsAt returns the branch decisions control reaches target under (control dependence), without dropping
+// conditions whose variables are reassigned afterwards: the decision was taken, even if its condition no longer holds.
+func CtlGuardsAt(f *Fn, target ast.Node) []Guard {
+	return guardsAt(f, target, false)
+}
+
+func guardsAt(f *Fn, target ast.Node, dropKilled bool) []Guard {
 	path := PathTo(f.Decl.Body, target)
 	if path == nil {
 		return nil
@@ -103,9 +116,9 @@ func GuardsAt(f *Fn, target ast.Node) []Guard {
 		switch p := parent.(type) {
 		case *ast.IfStmt:
 			if child == ast.Node(p.Body) {
-				gs = append(gs, Guard{Cond: p.Cond, Pos: true, At: p.Pos()})
+				gs = append(gs, Guard{Cond: p.Cond, Pos: true, At: p.Pos(), Enclosing: true})
 			} else if p.Else != nil && child == ast.Node(p.Else) {
-				gs = append(gs, Guard{Cond: p.Cond, Pos: false, At: p.Pos()})
+				gs = append(gs, Guard{Cond: p.Cond, Pos: false, At: p.Pos(), Enclosing: true})
 			}
 		case *ast.BlockStmt:
 			addPrev(p.List, child)
@@ -120,11 +133,15 @@ func GuardsAt(f *Fn, target ast.Node) []Guard {
 				addPrev(p.Body, child)
 				// find the switch
 				if i >= 2 {
+					before := len(gs)
 					switch sw := path[i-2].(type) {
 					case *ast.SwitchStmt:
 						addSwitchGuard(sw, p, &gs)
 					case *ast.TypeSwitchStmt:
 						addTypeSwitchGuard(sw, p, &gs)
+					}
+					for k := before; k < len(gs); k++ {
+						gs[k].Enclosing = true
 					}
 				}
 			}
@@ -132,7 +149,7 @@ func GuardsAt(f *Fn, target ast.Node) []Guard {
 			addPrev(p.Body, child)
 		case *ast.ForStmt:
 			if child == ast.Node(p.Body) && p.Cond != nil {
-				gs = append(gs, Guard{Cond: p.Cond, Pos: true, At: p.Pos()})
+				gs = append(gs, Guard{Cond: p.Cond, Pos: true, At: p.Pos(), Enclosing: true})
 			}
 		case *ast.BinaryExpr:
 			if child == ast.Node(p.Y) {
@@ -147,7 +164,7 @@ func GuardsAt(f *Fn, target ast.Node) []Guard {
 	// drop guards invalidated by reassignment
 	var out []Guard
 	for _, g := range gs {
-		if !guardInvalidated(f, g, target, path) {
+		if !dropKilled || !guardInvalidated(f, g, target, path) {
 			out = append(out, g)
 		}
 	}
@@ -248,14 +265,20 @@ func addTypeSwitchGuard(sw *ast.TypeSwitchStmt, cc *ast.CaseClause, gs *[]Guard)
 
 func guardInvalidated(f *Fn, g Guard, target ast.Node, path []ast.Node) bool {
 	objs := map[types.Object]bool{}
+	gfields := map[*types.Var]bool{}
 	collect := func(e ast.Expr) {
 		if e == nil {
 			return
 		}
 		ast.Inspect(e, func(n ast.Node) bool {
-			if id, ok := n.(*ast.Ident); ok {
-				if o, ok := f.Pkg.TypesInfo.Uses[id].(*types.Var); ok && !o.IsField() && o.Pkg() == f.Pkg.Types && o.Parent() != f.Pkg.Types.Scope() {
+			switch x := n.(type) {
+			case *ast.Ident:
+				if o, ok := f.Pkg.TypesInfo.Uses[x].(*types.Var); ok && !o.IsField() && o.Pkg() == f.Pkg.Types && o.Parent() != f.Pkg.Types.Scope() {
 					objs[o] = true
+				}
+			case *ast.SelectorExpr:
+				if fv := FieldOf(f.Pkg, x); fv != nil {
+					gfields[fv] = true
 				}
 			}
 			return true
@@ -285,21 +308,37 @@ func guardInvalidated(f *Fn, g Guard, target ast.Node, path []ast.Node) bool {
 		}
 	}
 	bad := false
-	rootObj := func(e ast.Expr) types.Object {
-		for {
-			switch x := e.(type) {
-			case *ast.Ident:
-				if o := f.Pkg.TypesInfo.Uses[x]; o != nil {
-					return o
-				}
-				return f.Pkg.TypesInfo.Defs[x]
-			case *ast.ParenExpr:
-				e = x.X
-			default:
-				return nil
+	// kills reports whether storing to lhs can change the guard's value
+	kills := func(lhs ast.Expr) bool {
+		lhs = Unparen(lhs)
+		switch x := lhs.(type) {
+		case *ast.Ident:
+			o := f.Pkg.TypesInfo.Uses[x]
+			if o == nil {
+				o = f.Pkg.TypesInfo.Defs[x]
 			}
+			return o != nil && objs[o]
+		case *ast.SelectorExpr:
+			// a store to X.f changes the guard only if the guard reads field f
+			if fv := FieldOf(f.Pkg, x); fv != nil {
+				return gfields[fv]
+			}
+			return true
+		default:
+			// *p = …, p[i] = …: conservative if rooted at a guard variable
+			root := false
+			ast.Inspect(lhs, func(n ast.Node) bool {
+				if id, ok := n.(*ast.Ident); ok {
+					if o := f.Pkg.TypesInfo.Uses[id]; o != nil && objs[o] {
+						root = true
+					}
+				}
+				return true
+			})
+			return root
 		}
 	}
+	containsTarget := func(n ast.Node) bool { return n.Pos() <= target.Pos() && target.End() <= n.End() }
 	ast.Inspect(f.Decl.Body, func(n ast.Node) bool {
 		if n == nil || bad {
 			return false
@@ -309,23 +348,24 @@ func guardInvalidated(f *Fn, g Guard, target ast.Node, path []ast.Node) bool {
 		}
 		switch s := n.(type) {
 		case *ast.AssignStmt:
-			if s.Pos() >= lo && s.Pos() < hi {
+			// the right-hand side is evaluated before the store: an assignment whose RHS contains the target does not kill
+			if s.Pos() >= lo && s.Pos() < hi && !(containsTarget(s) && hi == target.Pos()) {
 				for _, l := range s.Lhs {
-					if o := rootObj(l); o != nil && objs[o] {
+					if kills(l) {
 						bad = true
 					}
 				}
 			}
 		case *ast.IncDecStmt:
-			if s.Pos() >= lo && s.Pos() < hi {
-				if o := rootObj(s.X); o != nil && objs[o] {
-					bad = true
-				}
+			if s.Pos() >= lo && s.Pos() < hi && kills(s.X) {
+				bad = true
 			}
 		case *ast.UnaryExpr:
 			if s.Op == token.AND && s.Pos() >= lo && s.Pos() < hi {
-				if o := rootObj(s.X); o != nil && objs[o] {
-					bad = true // address taken: may be written through the pointer
+				if id, ok := Unparen(s.X).(*ast.Ident); ok {
+					if o := f.Pkg.TypesInfo.Uses[id]; o != nil && objs[o] {
+						bad = true // address of the variable itself taken: may be written through the pointer
+					}
 				}
 			}
 		}
@@ -882,3 +922,26 @@ func KeyIs(keys ...string) func(*types.Func) bool {
 
 // ExprString renders an expression compactly.
 func ExprString(e ast.Expr) string { return types.ExprString(e) }
+
+// WritesTransitiveExcept is WritesTransitive that does not descend into functions for which stop returns true.
+func (p *Prog) WritesTransitiveExcept(f *Fn, stop func(*Fn) bool) map[*types.Var]bool {
+	out := map[*types.Var]bool{}
+	seen := map[*Fn]bool{}
+	var visit func(*Fn)
+	visit = func(g *Fn) {
+		if g == nil || seen[g] || g.Decl.Body == nil || stop(g) {
+			return
+		}
+		seen[g] = true
+		for _, a := range FieldAccesses(g.Pkg, g.Decl.Body) {
+			if a.Write {
+				out[a.Field] = true
+			}
+		}
+		for _, c := range CallsAll(g.Pkg, g.Decl.Body, func(*types.Func) bool { return true }) {
+			visit(p.FnOf(Callee(g.Pkg, c)))
+		}
+	}
+	visit(f)
+	return out
+}
